@@ -34,6 +34,35 @@ fn sliders() -> (u64, Option<String>) {
     (cases, None)
 }
 
+#[cfg(verif_dump)]
+fn keys() -> Vec<u64> {
+    let (k, n) = cozy_chess::verif_dump_keys();
+    k[..n].to_vec()
+}
+#[cfg(not(verif_dump))]
+fn keys() -> Vec<u64> { panic!("built without --cfg verif_dump") }
+
+/// unverified helper: find a dependent subset of at most 4 keys (used only to print a witness after the
+/// verified checker has answered false)
+fn indep_witness(k: &[u64]) -> Option<Vec<usize>> {
+    let n = k.len();
+    for i in 0..n {
+        if k[i] == 0 { return Some(vec![i]); }
+        for j in i + 1..n {
+            let a = k[i] ^ k[j];
+            if a == 0 { return Some(vec![i, j]); }
+            for l in j + 1..n {
+                let b = a ^ k[l];
+                if b == 0 { return Some(vec![i, j, l]); }
+                for m in l + 1..n {
+                    if b ^ k[m] == 0 { return Some(vec![i, j, l, m]); }
+                }
+            }
+        }
+    }
+    None
+}
+
 fn main() {
     let args: Vec<String> = std::env::args().collect();
     let cmd = args.get(1).map(|s| s.as_str()).unwrap_or("");
@@ -43,8 +72,15 @@ fn main() {
             println!("{{\"cmd\":\"sliders\",\"cases\":{},\"ok\":{},\"witness\":{}}}", cases, bad.is_none(),
                      match bad { Some(w) => format!("\"{}\"", w), None => "null".into() });
         }
+        "keys" => {
+            for k in keys() { println!("{:016x}", k); }
+        }
+        "indep-witness" => {
+            let k = keys();
+            println!("{{\"cmd\":\"indep-witness\",\"keys\":{},\"witness\":{:?}}}", k.len(), indep_witness(&k));
+        }
         _ => {
-            eprintln!("usage: verif-native sliders");
+            eprintln!("usage: verif-native sliders|keys|indep-witness");
             std::process::exit(2);
         }
     }
